@@ -473,22 +473,19 @@ def views(ctx, m):
             ctx.check(src_ok(nm, e) and same_book(e, ("param", 1, "self")), "views", "%s|%s" % (fname, nm), ctx.loc(f),
                       "%s.%s <- %s" % (fname, nm, render(e)), "%s.%s is fed from %s" % (fname, nm, render(e)))
     f = m.market_fn("level_2_data")
-    q = m.q(f)
-    cl = q.closures()
-    if len(cl) == 1:
-        cq, ops, names, _b = cl[0]
+    q = m.qi(f)
+    from analysis.beta import from_fn_element
+    r = from_fn_element(m.w, q.ret(), ("var", "i"))   # element i of the returned array (closures beta-reduced, helpers inlined)
+    for (cq, _ops, _names, _b) in q.closures():
         ctx.analysed_fns.add(cq.fn.path)
-        r = cq.ret()
-        if r[0] == "agg" and r[1] == "adt":
-            for nm, e in zip(r[4], r[3]):
-                calls = [x for x in walk(e) if x[0] == "call" and x[4] in ("bid_ask", "bid_vol", "ask_vol", "bid_levels", "ask_levels")]
-                idx_ok = all(c[2][0][0] == "index" and c[2][0][2][0] == "param" and c[2][0][2][1] == 2 for c in calls) and bool(calls)
-                ctx.check(src_ok(nm, e) and idx_ok, "views", "Market::level_2_data|" + nm, ctx.loc(f),
-                          "Market::level_2_data[i].%s <- %s" % (nm, render(e)), "Market::level_2_data[i].%s is fed from %s" % (nm, render(e)))
-        else:
-            ctx.bad("views", "Market::level_2_data|shape", ctx.loc(f), "closure does not build a Level2Data literal")
+    if r is not None and r[0] == "agg" and r[1] == "adt":
+        for nm, e in zip(r[4], r[3]):
+            calls = [x for x in walk(e) if x[0] == "call" and x[4] in ("bid_ask", "bid_vol", "ask_vol", "bid_levels", "ask_levels")]
+            idx_ok = all(c[2][0][0] == "index" and c[2][0][2] == ("var", "i") for c in calls) and bool(calls)
+            ctx.check(src_ok(nm, e) and idx_ok, "views", "Market::level_2_data|" + nm, ctx.loc(f),
+                      "Market::level_2_data[i].%s <- %s" % (nm, render(e)), "Market::level_2_data[i].%s is fed from %s" % (nm, render(e)))
     else:
-        ctx.bad("views", "Market::level_2_data|shape", ctx.loc(f), "Market::level_2_data is not a single from_fn closure")
+        ctx.bad("views", "Market::level_2_data|shape", ctx.loc(f), "Market::level_2_data is not from_fn over a Level2Data literal per index")
 
 
 # ---------------------------------------------------------------------------------- never crossed
